@@ -580,7 +580,7 @@ void Exec::run_call(int idx) {
   }
   if (oi.level == 3) {
     n_life++;
-    const bool own_bracket = c.op == OP_LIFE_MODULE_PAIR || c.op == OP_LIFE_MODULE_SEQ;  // these bracket each new/delete pair themselves
+    const bool own_bracket = c.op == OP_LIFE_MODULE_PAIR || c.op == OP_LIFE_MODULE_SEQ || c.op == OP_LIFE_TABLE_SEQ;  // these bracket each new/delete pair themselves
     const int pair_leaks = op_leak_errors();
     op_leak_errors() = 0;
     if (sim_current_task() < 0 && (own_bracket ? pair_leaks != 0 : (sim_lib_live_total() != life_live || sim_lib_live_since(life_mark) != 0))) {
